@@ -34,3 +34,4 @@ _reg("C25")
 _reg("C22")
 _reg("C18")
 _reg("C29")
+_reg("C28")
